@@ -441,7 +441,7 @@ PROPS["C12"] = dict(
 PROPS["C18"] = dict(
     harness="p_det",
     phases=dict(quick=[rc(8, 50), rc(8, 50, flavour="tsan", seed_offset=100)],
-                thorough=[rc(8, 4000), rc(8, 4000, flavour="tsan", seed_offset=100)]),
+                thorough=[rc(8, 1000), rc(8, 700, flavour="tsan", seed_offset=100)]),
     rule=("cases: sequences of 2-6 compile inputs (valid programs with and without user macros/temporaries/loops, priority-sensitive "
           "&/* expressions, 2-edit mutants, token soup; 1-3 files; a third of the inputs are near copies of the previous one with one "
           "number - preferably a macro priority - or one identifier changed) and 1-8 threads; every case runs in a forked child, so the "
@@ -452,7 +452,7 @@ PROPS["C18"] = dict(
           "per input, the single-threaded serialisation - run under ASan and under ThreadSanitizer, any report is a violation; (c) a VM "
           "stepped in lock step with a second VM on the same program (stepping, breakpoints, reset) behaves as alone. Non-trivial: >=2 "
           "threads with >=2 distinct inputs one of which uses macros; or >=3 inputs single-threaded; distinct by hash of the sequence."),
-    min_nontrivial=dict(quick=200, thorough=8000),
+    min_nontrivial=dict(quick=200, thorough=3000),
     assumptions=["ThreadSanitizer detects races between accesses that both execute, independent of timing; thread schedules are not enumerated",
                  "inputs whose macro expansion grows explosively (known finding F11) are excluded by the same pre-screen as C02"],
     technique="property-based testing: rapidcheck-generated compile/run sequences; differential against a fresh process and against single-threaded results, under ASan and TSan",
